@@ -24,6 +24,10 @@ def main():
             not_applicable.append({'property_id': pid, 'reason': 'not claimed yet: Lean model and check under construction (see DESIGN.md section 9)'})
             continue
         mod = importlib.import_module('props.' + pid)
+        ready = os.path.exists(os.path.join(HERE, 'ready', pid))
+        if not ready or not hasattr(mod, 'LEVEL_TEXT') or mod.LEVEL_TEXT == 'under construction':
+            not_applicable.append({'property_id': pid, 'reason': 'not claimed yet: check under construction / not yet validated on the clean tree (see DESIGN.md section 9)'})
+            continue
         if getattr(mod, 'DRIVER', None):
             drivers.append(mod.DRIVER)
         checks.append({
